@@ -99,14 +99,19 @@ def run(chk, replay=None):
     if r.violation != "ColdRacePossible":
         chk.notes.append("the cold-start race witness was not found: the race detector of the model may be vacuous")
     # 2. recorded executions
-    runs = [("warm", 16, 400 if quick else 2000, chk.seed), ("cold", 16, 60 if quick else 300, chk.seed),
-            ("cold", 8, 10, chk.seed + 1), ("warm", 4, 60, chk.seed + 2)]
+    # (mode, threads, iterations, seed, CPU mask): mask 15 = the portable kernels in every module and table built by the process
+    runs = [("warm", 16, 400 if quick else 2000, chk.seed, 0), ("cold", 16, 60 if quick else 300, chk.seed, 0),
+            ("cold", 8, 10, chk.seed + 1, 0), ("warm", 4, 60, chk.seed + 2, 0),
+            ("warm", 16, 250 if quick else 1500, chk.seed + 11, 15), ("cold", 16, 40 if quick else 200, chk.seed + 12, 15)]
     if not quick:
-        runs += [("cold", 16, 60, chk.seed + 7 * i) for i in range(1, 6)] + [("warm", 16, 400, chk.seed + 3)]
+        runs += [("cold", 16, 60, chk.seed + 7 * i, 0) for i in range(1, 6)] + [("warm", 16, 400, chk.seed + 3, 0)]
     total_events = 0
-    for i, (mode, nt, iters, seed) in enumerate(runs):
-        raw, err, stderr = run_driver(bdir, mode, nt, iters, seed, "run%d" % i)
-        chk.case(("run", mode, nt))
+    for i, (mode, nt, iters, seed, cpumask) in enumerate(runs):
+        raw, err, stderr = run_driver(bdir, mode, nt, iters, seed, "run%d" % i,
+                                      env=dict(os.environ, CONC_CPU_MASK=str(cpumask)) if cpumask else None)
+        chk.case(("run", mode, nt, cpumask))
+        if cpumask:
+            mode = mode + " (portable kernels)"
         if raw is None:
             chk.violation("concurrent %s run (%d threads): the driver %s" % (mode, nt, err),
                           {"mode": mode, "threads": nt, "stderr": stderr}, finding_key="crash:conc_drive " + mode)
@@ -149,6 +154,16 @@ def run(chk, replay=None):
             chk.notes.append("TSan observer run failed: %s" % err)
         for rep in races[:3]:
             chk.violation("ThreadSanitizer observed a data race during a warm run", {"report": rep[:3000]})
+        # the same under the portable dispatch
+        env1 = dict(env, CONC_CPU_MASK="15")
+        raw1, err1, stderr1 = run_driver(tdir, "warm", 8, 150 if quick else 800, chk.seed + 3, "tsan-generic", env=env1, timeout=1800)
+        races1 = re.findall(r"WARNING: ThreadSanitizer: data race.*?(?=\n\n|\Z)", stderr1, flags=re.S)
+        chk.cov["tsan_observer_portable_kernels"] = {"ran": raw1 is not None, "race_reports": len(races1)}
+        chk.case(("tsan", "warm-portable", 8))
+        if raw1 is None and err1:
+            chk.notes.append("TSan observer run (portable kernels) failed: %s" % err1)
+        for rep in races1[:3]:
+            chk.violation("ThreadSanitizer observed a data race during a warm run under the portable dispatch", {"report": rep[:3000]})
         # a fresh process in which the threads run module-level and table operations only (first use included, no *_simple call): the
         # warm-up protocol does not apply to them, so every race report is illegal here too
         env2 = dict(env, CONC_CLASS0_ONLY="1")
